@@ -24,5 +24,11 @@ func init() {
 		{"R17", ruleDivisibility},
 		{"R14s", ruleDomainSML},
 		{"R1es", ruleSMLTables},
+		{"R19", ruleEmitCapacity},
+		{"R10", ruleLexClass},
+		{"R25", ruleErrorsSuppress},
+		{"R20", ruleMsgScope},
+		{"R6ch", ruleAllocBeforeRecursion("hsms")},
+		{"R6cs", ruleAllocBeforeRecursion("sml")},
 	}, Explanation: "tmp"})
 }
